@@ -3,6 +3,8 @@
 package cl
 
 import (
+	"math/big"
+
 	"github.com/ohler55/slip"
 )
 
@@ -17,9 +19,9 @@ func init() {
 			Name: "lcm",
 			Args: []*slip.DocArg{
 				{Name: "&rest"},
-				{Name: "integers", Type: "fixnum"},
+				{Name: "integers", Type: "integer"},
 			},
-			Return: "fixnum",
+			Return: "integer",
 			Text:   `__lcm__ returns the least common multiple of _integers_.`,
 			Examples: []string{
 				"(lcm) => 1",
@@ -36,23 +38,19 @@ type Lcm struct {
 
 // Call the function with the arguments provided.
 func (f *Lcm) Call(s *slip.Scope, args slip.List, depth int) slip.Object {
-	z := slip.Fixnum(1)
-	for i, a := range args {
-		num, ok := a.(slip.Fixnum)
-		if !ok {
-			slip.TypePanic(s, depth, "integers", a, "fixnum")
+	var (
+		z big.Int
+		g big.Int
+	)
+	_ = z.SetInt64(1)
+	for _, a := range args {
+		bi := bigIntArg(s, a, depth)
+		if bi.Sign() == 0 {
+			return slip.Fixnum(0)
 		}
-		switch {
-		case num == 0:
-			return num
-		case num < 0:
-			num = -num
-		}
-		if i == 0 { // first one
-			z = num
-		} else {
-			z = z * num / gcd(z, num)
-		}
+		// Divide before the multiply to keep the intermediate value small.
+		_ = g.GCD(nil, nil, &z, bi)
+		_ = z.Mul(z.Quo(&z, &g), bi)
 	}
-	return z
+	return intReduce(z.Abs(&z))
 }
